@@ -14,6 +14,7 @@ import random
 from .. import codec, core
 
 MAGIC = bytes.fromhex("37a430ec")
+OFP_CONTENT = b""
 CMODES = [("usingDict", "-"), ("usingCDict", "-"), ("compress2", "load"), ("compress2", "loadref"), ("compress2", "cdict"),
           ("compress2", "cdictref"), ("compress2", "prefix")]
 DMODES = ["usingDict", "ddict", "ddictref", "loaddict", "multiddict"]
@@ -111,6 +112,14 @@ def make_dicts(ctx, rng, mk):
     counts = ",".join(str(1 << (24 - i)) if i < 14 else "1" for i in range(256))
     lines.append("M advF6 1234 12:%s 5:%s 6:%s 6:%s 1,4,8 %s" % (counts, ",".join(["1"] * 32), ",".join(["1"] * 52 + ["12"]),
                                                                    ",".join(["3"] * 20 + ["4"]), codec.hx(content_pool[0])))
+    # offset-code table covering exactly the codes the FIRST block can need (0..highbit(content + 128 KiB)), all non-zero:
+    # the loader may trust it for the first block only; later blocks reach further (repeat-mode selection must re-check)
+    global OFP_CONTENT
+    OFP_CONTENT = rng.randbytes(65536)
+    kmax = (len(OFP_CONTENT) + 131072).bit_length() - 1
+    ofn = [4] * (64 - 3 * (kmax + 1)) + [3] * ((kmax + 1) - (64 - 3 * (kmax + 1)))
+    lines.append("M advOFpartial 4242 11:%s 6:%s 9:%s 9:%s 1,4,8 %s" % (",".join(["3"] * 100 + ["2"] * 100 + ["1"] * 56), ",".join(map(str, ofn)),
+                 ",".join(["10"] * 35 + ["9"] * 18), ",".join(["15"] * 8 + ["14"] * 28), codec.hx(OFP_CONTENT)))
     out, errs = mk(lines)
     built = 0
     for l in lines:
@@ -199,6 +208,19 @@ def run(ctx):
                 if rng.random() < 0.3:
                     p["checksum"] = 1
             cases.append(dict(id="c%d" % len(cases), di=i, x=input_for(rng, d, name), entry=ent if ent == "compress2" else "%s:%d" % (ent, level), dictmode=dm, params=p))
+    # far references into the partial-offset-table dictionary after an incompressible (raw) first block
+    for i, (name, d) in enumerate(dicts):
+        if name != "advOFpartial" or i not in verdict or not (verdict[i][0] and verdict[i][1]):
+            continue
+        for k, level in enumerate([1, 2, 3, 4, 5, 1, 3] if ctx.quick else [1, 2, 3, 4, 5, 6, 7, 1, 2, 3, 4, 5, 13, 19]):
+            x = bytearray(rng.randbytes(2 * 131072))
+            if k % 3 == 2:       # control: compressible from the start
+                x[100:3100] = OFP_CONTENT[5000:8000]
+            x[131072 + 20000:131072 + 23000] = OFP_CONTENT[60000:63000]
+            x[131072 + 110000:131072 + 113000] = OFP_CONTENT[1000:4000]
+            ent, dm = CMODES[k % len(CMODES[:6])]
+            cases.append(dict(id="c%d" % len(cases), di=i, x=bytes(x), entry=ent if ent == "compress2" else "%s:%d" % (ent, level), dictmode=dm,
+                              params={"level": level, "checksum": 1}))
     out, errs = cd.impl(["C %s %s %s %s %s %s" % (c["id"], c["entry"], codec.params_str(c["params"]) if c["entry"] == "compress2" else "-",
                                                    c["dictmode"], codec.hx(dicts[c["di"]][1]), codec.hx(c["x"])) for c in cases])
     if errs:
